@@ -1,0 +1,31 @@
+//go:build verif
+
+// Read-only accessors for the verification harness (/verif, property C08). No logic.
+
+package server
+
+// VerifLeaderOffsets returns the head and commit offsets of the leader's quorum ack tracker.
+// ok is false when the controller has no tracker (it is not leading).
+func VerifLeaderOffsets(lc LeaderController) (head int64, commit int64, ok bool) {
+	l, isLc := lc.(*leaderController)
+	if !isLc {
+		return -1, -1, false
+	}
+	l.RLock()
+	defer l.RUnlock()
+	if l.quorumAckTracker == nil {
+		return -1, -1, false
+	}
+	return l.quorumAckTracker.HeadOffset(), l.quorumAckTracker.CommitOffset(), true
+}
+
+// VerifTrackerSizes returns the number of waiting requests and of tracked (uncommitted) offsets.
+func VerifTrackerSizes(q QuorumAckTracker) (waiting int, tracked int) {
+	t, isT := q.(*quorumAckTracker)
+	if !isT {
+		return -1, -1
+	}
+	t.Lock()
+	defer t.Unlock()
+	return len(t.waitingRequests), len(t.tracker)
+}
